@@ -711,6 +711,10 @@ def bind_contexts(ctx):
                 bname = rng.choice(["x.y", "a[0]", "p:q", "plain_bp", "sp ace"]) + str(ci)
                 preds.append(("in-named-bindparam", col.in_(sa.bindparam(bname, expanding=True)),
                               ids_of(lambda v: v in subset), len(subset)))
+                if tn in ("Integer", "Tag", "Date", "DateTime", "Boolean"):
+                    # rendered in the SQL at execution time (post-compile, literal_execute)
+                    preds.append(("in-named-literal-execute", col.in_(sa.bindparam(bname + "L", expanding=True, literal_execute=True)),
+                                  ids_of(lambda v: v in subset), len(subset)))
                 if tn not in ("Enum", "Boolean", "LargeBinary", "Tag"):
                     lo, hi = sorted(vals)[1], sorted(vals)[2]
                     preds.append(("between", col.between(lo, hi), ids_of(lambda v: lo <= v <= hi), 2))
@@ -730,6 +734,8 @@ def bind_contexts(ctx):
                         params = {"bp_%d" % ci: list(subset)}
                     elif pname == "in-named-bindparam":
                         params = {bname: list(subset)}
+                    elif pname == "in-named-literal-execute":
+                        params = {bname + "L": list(subset)}
                     elif pname == "tuple-in-named-bindparam":
                         params = {tname: list(pairs)}
                     del calls[:]
